@@ -1274,6 +1274,13 @@ VG2_TYPE_TESTS = {'is', 'Py_IS_TYPE', 'isinstance', 'IsNamedTupleClass', 'IsName
                   'equal'}
 VG2_STATUS_CALLS = {'PyList_Sort', 'PyList_Reverse', 'PyList_Append', 'PyList_SetSlice', 'PyDict_SetItem',
                     'PyDict_DelItem', 'PyObject_SetAttr', 'PyList_Insert'}
+# comparisons a property rests on: (function, text in the left operand, text in the right operand or
+# None, why); the guard throws on the outcome on which the two differ
+VG2_DIFFERS = [
+    ('FlattenUpTo', 'leaf', '-(1)', 'leaves of the treespec that the walk did not consume mean the tree is too small'),
+    ('MakeFromCollectionImpl', 'm_none_is_leaf', None, 'a child treespec made with the other none_is_leaf setting describes different trees'),
+    ('FromPickleable', 'size(', '3', 'the pickled state is a 3-tuple'),
+]
 VG2_SCOPE = {
     'C07': ('src/treespec/flatten.cpp', 'src/treespec/richcomparison.cpp', 'include/optree/pytypes.h'),
     'C09': ('src/treespec/treespec.cpp',), 'C08': ('src/treespec/constructor.cpp', 'src/treespec/treespec.cpp'),
@@ -1366,6 +1373,12 @@ def vg2(ctx):
                     continue
                 a, pos = unnegate(cn.ast)
                 rej = _vg2_rejecting(a, pos, local_inits(f))
+                if rej is None and a is not None and a.kind == 'BinaryOperator' and a.op in ('==', '!=') and len(a.kids) == 2:
+                    owner_ = f if not f.is_lambda else prog.funcs.get(f.parent, f)
+                    for fn_, lt_, rt_, _why in VG2_DIFFERS:
+                        if short(owner_).endswith(fn_) and lt_ in a.kids[0].text(4) and \
+                                (rt_ is None or rt_ in a.kids[1].text(4)):
+                            rej = a.op == '!='
                 if rej is None:
                     continue
                 key = (g.file, g.line, a.text(3))
